@@ -506,6 +506,24 @@ def get_sched(h, level):
     return _CUR["sched"]
 
 
+def canonical_state():
+    """global library state every task starts from, whatever ran before in this worker process:
+    every multi-backend hasher used by the harnesses has its default backend loaded (a Backend harness resets
+    only its own hasher, per execution), the registry entry used by the Registry harness is present"""
+    import passlib.hash as PH
+    import passlib.registry as R
+    from passlib.handlers import fshp as F
+
+    for n in ("md5_crypt", "sha256_crypt", "sha512_crypt", "sha1_crypt", "des_crypt", "bsdi_crypt", "bcrypt", "bcrypt_sha256"):
+        H = getattr(PH, n)
+        try:
+            H.get_backend()
+        except Exception:  # noqa: BLE001
+            reset_backend(H)
+            H.get_backend()
+    R._handlers.setdefault("fshp", F.fshp)
+
+
 def sequential(h):
     """allowed observations: per thread, over every sequential order; allowed post states"""
     allowed = [set() for _ in h.ops]
@@ -562,6 +580,7 @@ def work(task):
     h = make_harness(task)
     level = task["level"]
     s = get_sched(h, level)
+    canonical_state()
     allowed, posts = sequential(h)
     bound = task["bound"]
     spec = {"harness": h.name, "ops": list(h.ops), "level": level}
@@ -704,6 +723,7 @@ def run(ctx):
 def replay(case):
     h = make_harness(case)
     s = get_sched(h, case["level"])
+    canonical_state()
     allowed, posts = sequential(h)
     x1, v1 = run_one(h, s, case["choices"], allowed, posts)
     x2, v2 = run_one(h, s, case["choices"], allowed, posts)
